@@ -5,8 +5,10 @@ import (
 	"fmt"
 	"io"
 	"net"
+	"os"
 	"sort"
 	"strings"
+	"syscall"
 	"testing"
 	"time"
 
@@ -200,7 +202,9 @@ func runCmd(t *testing.T, c simrt.Chooser, w *WorldSpec, trace bool) *CmdResult 
 		wire = simwire.Install(r)
 		wire.StallEvery, wire.StallFor = w.NicStallEvery, parseDur(w.NicStallFor)
 		if w.NicErrEvery > 0 {
-			wire.WriteErrEvery, wire.WriteErr = w.NicErrEvery, fmt.Errorf("send: no buffer space available")
+			// what sendto(2) on a packet socket returns under pressure: a temporary errno, bare or wrapped
+			errs := []error{syscall.ENOBUFS, syscall.EAGAIN, os.NewSyscallError("sendto", syscall.EAGAIN), fmt.Errorf("send: no buffer space available")}
+			wire.WriteErrEvery, wire.WriteErr = w.NicErrEvery, errs[w.NicErrEvery%len(errs)]
 		}
 		wire.CloseWakesReader = w.CloseWakes
 		if w.SockOpenErr != "" {
